@@ -163,7 +163,8 @@ CHECKS['C07'] = dict(
          "collision lists. Program-level alpha-invariance is decided by the oracle: every specification is recompiled under a benign and "
          "under adversarial injective renamings of the author's variables (to names the compiler invents for that very specification, "
          "CNT/SM/MX/MN, suffixed variants) and compared rule by rule up to renaming. Partial: that the collision list is complete at the "
-         "moment of each call is not proved (and false for the parser: recorded finding).",
+         "moment of each call is not proved (it was false for the parser; repaired by fix 830b8a1, which reads a sentence's author variables "
+         "off the parse tree before transforming it).",
     note="Trusted: Coq kernel; identification of author variables in the text (all-upper-case tokens outside strings; article 'A' and AM/PM excluded by position).",
     technique="Coq freshness theorems over a byte-exact generator model + adversarial renaming oracle",
     design="6.C07")
